@@ -185,7 +185,42 @@ def check_history_optimum(problem):
     if not len(problem.database):
         return []
     sol = problem.history.optimum
-    return check_reported_optimum(problem, sol.design, sol.objective, sol.is_feasible, sol.constraints, sol.constraint_jacobian)
+    out = check_reported_optimum(problem, sol.design, sol.objective, sol.is_feasible, sol.constraints, sol.constraint_jacobian)
+    return out + check_history_views(problem)
+
+
+def check_history_views(problem):
+    """``history.feasible_points`` and ``history.last_point`` against the recorded entries."""
+    out = []
+    entries = db_entries(problem)
+    cons = constraint_specs(problem)
+    tol_eq, tol_ineq = problem.tolerances.equality, problem.tolerances.inequality
+    feas = [(x, o) for x, o in entries if feasible(o, cons, tol_eq, tol_ineq)]
+    xs, outs = problem.history.feasible_points
+    if len(xs) != len(feas) or any(not np.array_equal(np.asarray(a), b) for a, (b, _) in zip(xs, feas)):
+        out.append(("C04.feasible_points", "history.feasible_points", f"feasible_points lists {[np.asarray(a).tolist() for a in xs]}, the feasible recorded points are {[b.tolist() for b, _ in feas]}"))
+    else:
+        for got, (x, o) in zip(outs, feas):
+            if set(got) != set(o) or any(not same_value(_dense(got[k]), _dense(o[k])) for k in o):
+                out.append(("C04.feasible_points", "history.feasible_points values", f"feasible_points reports {dict(got)} at {x.tolist()}, recorded {o}"))
+                break
+    last = problem.history.last_point
+    x, o = entries[-1]
+    if not np.array_equal(np.asarray(last.design), x):
+        out.append(("C04.last_point", "history.last_point", f"last_point.design={last.design}, the last recorded point is {x}"))
+    else:
+        if last.is_feasible != feasible(o, cons, tol_eq, tol_ineq):
+            out.append(("C04.last_point", "history.last_point feasibility", f"last_point.is_feasible={last.is_feasible} for the recorded values {o}"))
+        obj = o.get(problem.objective.name)
+        if not same_value(last.objective, obj):
+            out.append(("C04.last_point", "history.last_point objective", f"last_point.objective={last.objective}, recorded {obj}"))
+        for name, _ in cons:
+            if not same_value(last.constraints.get(name), o.get(name)):
+                out.append(("C04.last_point", "history.last_point constraints", f"last_point.constraints[{name}]={last.constraints.get(name)}, recorded {o.get(name)}"))
+            g, r = last.constraint_jacobian.get(name), o.get("@" + name)
+            if not same_value(None if g is None else _dense(g), None if r is None else _dense(r)):
+                out.append(("C04.last_point", "history.last_point constraint gradient", f"gradient of {name} differs from the recorded one"))
+    return out
 
 
 def check_pareto(problem, f_optima, x_optima):
